@@ -240,6 +240,111 @@ class FilterLemmas(Lemma):
 # ----------------------------------------------------------------------------
 # Native side: replay + CPython cross-check of the decision spec on real headers
 # ----------------------------------------------------------------------------
+# ----------------------------------------------------------------------------
+# filterFasta command: the options reach VariantPeptidePool.filter under the right parameter names
+# ----------------------------------------------------------------------------
+FFC = 'moPepGen/cli/filter_fasta.py'
+
+
+class MiscStr:
+    """--miscleavages value '<a>:<b>'"""
+    def __init__(self, a, b):
+        self.a, self.b = a, b
+
+    def sym_contains(self, I, item):
+        if item == ':':
+            return True
+        raise Unsupported('substring test')
+
+    def sym_method(self, I, name, args, kwargs):
+        from .c14 import IntStr
+        if name == 'split' and args[:1] == [':']:
+            return [IntStr(self.a), IntStr(self.b)]
+        raise Unsupported(f'miscleavages.{name}')
+
+
+@register
+class FilterFastaCLI(Contract):
+    path, qualname, props = FFC, 'filter_fasta', ('C19',)
+    assumptions = ('assumed: load_coding_transcripts, VariantPeptidePool.load, load_expression_table, SeqIO.parse, open are external '
+                   '(their results are opaque values whose identity is followed to the filter call); column options are numeric, no skipped lines',)
+
+    def setup(self, I):
+        e = I.e
+        st = types.SimpleNamespace(calls=[], writes=[])
+        st.has_exprs, st.has_deny, st.has_misc = e.bool('exprs_table_given'), e.bool('denylist_given'), e.bool('miscleavages_given')
+        st.a, st.b = e.int('misc_lo'), e.int('misc_hi')
+        st.flags = dict(keep_all_coding=e.bool('keep_all_coding'), keep_all_noncoding=e.bool('keep_all_noncoding'),
+                        keep_canonical=e.bool('keep_canonical'))
+        st.cutoff = e.real('quant_cutoff')
+        st.enzyme = SymStr(z3.Const('enzyme', e.StrSort))
+        ns = SymObj('Namespace', input_path=OpaqueStr(['in']), output_path=OpaqueStr(['out']),
+                    miscleavages=MiscStr(st.a, st.b) if e.branch(st.has_misc, '--miscleavages given') else None,
+                    exprs_table=OpaqueStr(['exprs']) if e.branch(st.has_exprs, '--exprs-table given') else None,
+                    denylist=OpaqueStr(['deny']) if e.branch(st.has_deny, '--denylist given') else None,
+                    skip_lines=0, tx_id_col='1', quant_col='2', delimiter='\t', quant_cutoff=st.cutoff, enzyme=st.enzyme,
+                    index_dir=None, annotation_gtf=None, **st.flags)
+        st.coding, st.exprs, st.pool = SymObj('CodingTx'), SymObj('Exprs'), SymObj('PoolStub19')
+        st.deny_items = [SymObj('FastaRec', seq=SymObj('SeqA')), SymObj('FastaRec', seq=SymObj('SeqB'))]
+        st.args = [ns]
+        self._cur = st
+        return st
+
+    @property
+    def models(self):
+        return (self.install_models,)
+
+    def install_models(self, reg):
+        c = self
+        noop = lambda I, a, k: None
+        reg.func_('moPepGen/cli/common.py', 'validate_file_format', noop)
+        reg.func_('moPepGen/cli/common.py', 'print_start_message', noop)
+        reg.func_(FFC, 'load_coding_transcripts', lambda I, a, k: c._cur.coding)
+        reg.func_(FFC, 'load_expression_table', lambda I, a, k: c._cur.exprs)
+        reg.ext_('open', lambda I, a, k: SymObj('File', path=a[0]))
+        reg.method_('File', 'readline', lambda I, o, a, k: OpaqueStr(['line']))
+        reg.method_('VariantPeptidePool', 'load', lambda I, o, a, k: c._cur.pool)
+        reg.ext_('SeqIO.parse', lambda I, a, k: list(c._cur.deny_items))
+        reg.ext_('Bio.SeqIO.parse', lambda I, a, k: list(c._cur.deny_items))
+
+        def do_filter(I, o, a, k):
+            st = c._cur
+            # Python's own argument binding on the real signature of VariantPeptidePool.filter
+            cls, fnode = I.repo.find_method('VariantPeptidePool', 'filter')
+            from pyvc.interp import Env
+            env = Env({})
+            I.bind_args(fnode.args, [o] + list(a), dict(k), env, 'filter')
+            st.calls.append(dict(env.vars))
+            return SymObj('FilteredPool')
+        reg.method_('PoolStub19', 'filter', do_filter)
+        reg.method_('FilteredPool', 'write', lambda I, o, a, k: c._cur.writes.append(a))
+
+    def post_return(self, I, st, ret):
+        e = I.e
+        e.prove('C19/cli/filter-called-once-and-its-result-written', len(st.calls) == 1 and len(st.writes) == 1)
+        if len(st.calls) != 1:
+            return
+        b = st.calls[0]
+        for name, val in st.flags.items():
+            e.prove(f'C19/cli/--{name.replace("_", "-")}-reaches-parameter-{name}', b.get(name) is val)
+        e.prove('C19/cli/cutoff', b.get('cutoff') is st.cutoff)
+        e.prove('C19/cli/enzyme', b.get('enzyme') is st.enzyme)
+        e.prove('C19/cli/coding-transcripts', b.get('coding_transcripts') is st.coding)
+        ex = b.get('exprs')
+        e.prove('C19/cli/expression-table-iff-given', z3.If(st.has_exprs, ex is st.exprs, ex is None))
+        dl = b.get('denylist')
+        want = {x.fields['seq'] for x in st.deny_items}
+        try:
+            got = set(dl) if dl is not None else None
+        except TypeError:
+            got = 'not-a-collection'
+        e.prove('C19/cli/denylist-iff-given', z3.If(st.has_deny, got == want, dl is None))
+        mr = b.get('miscleavage_range')
+        okm = isinstance(mr, tuple) and len(mr) == 2
+        e.prove('C19/cli/miscleavage-range', z3.If(st.has_misc, z3.And(mr[0] == st.a, mr[1] == st.b) if okm and mr[0] is not None else False,
+                                                   okm and mr[0] is None and mr[1] is None) if okm else False)
+
+
 from pyvc.native import NativeCheck
 
 
@@ -332,4 +437,49 @@ class NativeFilter(NativeCheck):
         return None
 
 
-NATIVE = [NativeFilter()]
+class NativeFilterCLI(NativeCheck):
+    name = 'filter_cli_flags'
+    props = ('C19',)
+    functions = (f'{FFC}:filter_fasta',)
+    bounded_for = ''
+    bound = ('CPython cross-check of the proved option wiring of filterFasta: two peptides (one coding, one non-coding transcript, both '
+             'below the cutoff), every combination of --keep-all-coding / --keep-all-noncoding, through the real command function')
+    quick_budget_s = 10
+    thorough_budget_s = 20
+
+    def cases(self, rng, tier):
+        for kc in (False, True):
+            for kn in (False, True):
+                yield dict(keep_all_coding=kc, keep_all_noncoding=kn)
+
+    def from_model(self, model):
+        return dict(keep_all_coding=True, keep_all_noncoding=False)
+
+    def check(self, inp):
+        import tempfile, shutil, pickle, argparse
+        from pathlib import Path
+        from moPepGen.cli.filter_fasta import filter_fasta
+        d = Path(tempfile.mkdtemp(prefix='verif_c19_'))
+        try:
+            with open(d / 'coding_transcripts.pkl', 'wb') as fh:
+                pickle.dump({'ENST_C'}, fh)
+            (d / 'in.fasta').write_text('>ENST_C|SNV-10-A-T|1\nAAAAAAAAAK\n>ENST_N|SNV-20-A-T|1\nCCCCCCCCCK\n')
+            (d / 'exprs.tsv').write_text('ENST_C\t1\nENST_N\t1\n')
+            args = argparse.Namespace(command='filterFasta', input_path=d / 'in.fasta', output_path=d / 'out.fasta', exprs_table=d / 'exprs.tsv',
+                                      skip_lines=0, delimiter='\t', tx_id_col='1', quant_col='2', quant_cutoff=5.0,
+                                      keep_all_coding=inp['keep_all_coding'], keep_all_noncoding=inp['keep_all_noncoding'],
+                                      enzyme='trypsin', miscleavages=None, denylist=None, keep_canonical=False,
+                                      index_dir=d, annotation_gtf=None, reference_source=None, quiet=True, debug_level=1)
+            filter_fasta(args)
+            out = (d / 'out.fasta').read_text() if (d / 'out.fasta').exists() else ''
+            got = {l for l in out.splitlines() if l and not l.startswith('>')}
+            exp = ({'AAAAAAAAAK'} if inp['keep_all_coding'] else set()) | ({'CCCCCCCCCK'} if inp['keep_all_noncoding'] else set())
+            if got != exp:
+                return dict(call=f'filterFasta --keep-all-coding={inp["keep_all_coding"]} --keep-all-noncoding={inp["keep_all_noncoding"]}',
+                            observed=sorted(got), expected=sorted(exp), signature='flags-transposed')
+        finally:
+            shutil.rmtree(d, ignore_errors=True)
+        return None
+
+
+NATIVE = [NativeFilter(), NativeFilterCLI()]
